@@ -174,6 +174,12 @@ hwloc_synthetic_process_indexes(struct hwloc_synthetic_backend_data_s *data,
 	  free(loops);
 	  goto out_with_array;
 	}
+	if (cur_loop >= nr_loops) {
+	  if (verbose)
+	    fprintf(stderr, "Too many synthetic index interleaving loops at '%s'\n", tmp);
+	  free(loops);
+	  goto out_with_array;
+	}
 	loops[cur_loop].step = step;
 	loops[cur_loop].nb = nb;
 	if (step < minstep)
